@@ -50,6 +50,18 @@ CHECKS = {
              "theorem gen_from_native once props/C01 is in place). F10 (NaN) is an open known finding.",
         technique="Coq proof (nested induction over values) + vm_compute correspondence + direct oracle",
         design="6 C14"),
+    "C05": dict(
+        text="Theorem subst_narrows (Coq, all well-formed schemas, all plain values v with s % v defined, ALL values w, "
+             "no bound on nesting/length): conforms (s % v) w -> conforms s w, by nested induction over the schema "
+             "(scalars, typed lists, the four element-list forms incl. every contains-window, partial dicts, relaxed "
+             "dicts, any-filtering, alias, custom). Tie: per-run comparison of the real substitute's resulting schema "
+             "/ exception class with the model; oracle on /repo: for every successful S % v, third values w "
+             "(generated from S % v under min/max/random tapes, perturbations, values conforming to S) accepted by "
+             "S % v must be accepted by S.",
+        note=COMMON_NOTE + "A genuine defect found by this check (float tolerance drift, F26) was repaired by a fix: "
+             "commit; the model mirrors the repaired code.",
+        technique="Coq proof (nested induction over schemas, window/partial-dict lemmas) + vm_compute correspondence + direct oracle",
+        design="6 C05"),
 }
 
 
